@@ -2,7 +2,7 @@
 # wave 11: own-property check (plus the history check for two changes that need a call sequence)
 export VERIF_REPLAY_DIR=/tmp/run_seed.replays VERIF_EVIDENCE_DIR=/tmp/run_seed.evidence
 cd /verif
-declare -A EXTRA=()
+declare -A EXTRA=([C13-w11m2]="C03" [C13-w11m3]="C10" [C13-w11m1]="C03")
 for d in ${DIRS:-seeded/*-w11m*/}; do
   id=$(basename $d); prop=${id%%-*}
   echo "{" > $d/result.tmp; first=1
